@@ -39,6 +39,10 @@ RULE = (
     "t value or RecursionError)."
     " 9000 (thorough 60000) distinct addresses / tick values with re-reads 1000..5000 values "
     "later and in a second round."
+    ' TrapInfo.uptime at and around every power of two. Copies (copy / deepcopy / pickle) of '
+    'received and built values convert and encode like the original. Boundary values of every'
+    ' type through client and wrapper operations, also after an SNMPv1 noSuchName, a v1 walk '
+    'off the end of the MIB, an error-status and an undecodable response.'
 )
 ASSUMPTIONS = [
     "TimeTicks are hundredths of a second (RFC 2578 7.1.8); a timedelta that is not a multiple of 10 ms may be floored or rounded",
